@@ -61,6 +61,15 @@ def _leaf(l, rs):
     return l[5:] in rs
 
 
+def alias_spellings(new_name):
+    a = 'rule:%s' % new_name
+    return [a, '(%s)' % a, ' %s ' % a, '(( %s ))' % a, [[a]], [a]]
+
+
+def is_alias(value, new_name):
+    return value in alias_spellings(new_name)
+
+
 def ref_new(new_default, old_default, end, new_ovr, old_ovr, renamed,
             new_name):
     """R-depr.  old_ovr only meaningful when renamed.  -> vector | None."""
@@ -69,7 +78,7 @@ def ref_new(new_default, old_default, end, new_ovr, old_ovr, renamed,
     if renamed and old_ovr is not None:
         if old_ovr == old_default:
             return None                          # left unconstrained
-        if old_ovr != 'rule:%s' % new_name:
+        if not is_alias(old_ovr, new_name):
             return sem(old_ovr)
     v = sem(new_default)
     if not end and new_default != old_default:
@@ -126,7 +135,8 @@ def run(job, seed):
         if renamed:
             # ... including an override that is, as text, exactly the old or
             # exactly the NEW default
-            for c in ovr + ['rule:%s' % new1, O, N]:
+            # ... and the alias in every spelling
+            for c in ovr + alias_spellings(new1) + [O, N]:
                 if c not in old_choices:
                     old_choices.append(c)
         for end, new_ovr, old_ovr, loc, noise in itertools.product(
@@ -134,6 +144,11 @@ def run(job, seed):
                 ('main', 'dir', 'split', 'dironly'), (False, True)):
             if loc == 'split' and (new_ovr is None or old_ovr is None):
                 continue
+            if old_ovr is not None and old_ovr != 'rule:%s' % new1 and \
+                    is_alias(old_ovr, new1) and (
+                        new_ovr is not None or noise or
+                        loc not in ('main', 'dir')):
+                continue      # the unusual spellings: a reduced cross
             if noise and loc != 'main':
                 continue
             files = {'policy.yaml': {}, 'd1/o.yaml': {}}
@@ -176,13 +191,15 @@ def run(job, seed):
                 acc.case('table', new_ovr is not None or old_ovr is not None
                          or N != O)
                 for name, nd, novr in checks:
-                    exp = ref_new(nd, O, end, novr, old_ovr, renamed, name)
-                    if two is True and old_ovr == 'rule:%s' % new1 and \
-                            name == new2:
+                    if two is True and old_ovr is not None and \
+                            is_alias(old_ovr, new1) and name == new2:
                         # alias names the *other* new policy: for new2 it is
                         # an arbitrary override referring to new1
                         # -> new2 decides as svc:new does
                         exp = ref_new(N, O, end, new_ovr, None, True, new1)
+                    else:
+                        exp = ref_new(nd, O, end, novr, old_ovr, renamed,
+                                      name)
                     if exp is None:
                         acc.add('unconstrained_rows')
                         continue
@@ -199,7 +216,7 @@ def run(job, seed):
                                 'renamed' if renamed else 'same-name', end,
                                 novr is not None,
                                 'alias' if old_ovr and
-                                old_ovr.startswith('rule:') else
+                                is_alias(old_ovr, new1) else
                                 old_ovr is not None,
                                 'allows' if got[i] is True else 'denies'
                                 if got[i] is False else got[i]),
